@@ -33,6 +33,23 @@ CHECKS["C19"] = dict(
     text="Apalache proves tiling and agreement of the four chunk-count expressions for every size up to 10 TiB and every chunk size up to 2^32-1 (and refutes the negative controls); TLC enumerates a small domain with a small word so truncation is visited; every table row and boundary/random large pairs are evaluated on the real chunkTotal / chunkSizeForIndex / CreateSidecar with an independent tiling oracle, and the large observations are re-checked against the operators by Apalache.",
     note="trusted: Apalache + z3, TLC; the receiver-side expression is bound by the transfer checks")
 
+_T = "TLA+ spec Transfer.tla (control + data streams with QUIC visibility, workers, readers, faults) checked exhaustively with TLC; TransferGrid.tla enumerates the configuration grid whose rows are executed as real transfers over simulated and real QUIC transports, judged by return values and output-tree digest"
+CHECKS["C01"] = dict(
+    category="model_checking", design_ref="5.1",
+    technique=_T,
+    text="TLC checks Fidelity (both ok => every chunk written correctly) for every interleaving of workers, readers and control handling over a family of file/chunk/stream/slot configurations, under QUIC and mock stream visibility; a seeded sample (thorough: thousands) of the TLC-enumerated configuration grid (13 tree classes x chunk sizes x streams x connections x resume x root-dir mode x scan mode x 3 transports) is run on the real code and the output directory is compared byte for byte with the source whenever both sides report success.",
+    note="trusted: TLC, the vnet transport model (checked against loopback QUIC by running the same grid on both), sha256; contents are seeded random bytes")
+CHECKS["C03"] = dict(
+    category="model_checking", design_ref="5.1",
+    technique=_T,
+    text="TLC checks deadlock freedom and eventual success (fair scheduling) of Transfer.tla without faults, including QUIC stream visibility with fewer busy workers than streams, empty manifests and zero-length files; the pinned commit's blocking accept loop and ack-before-count orderings are refuted as negative controls; the configuration grid is run on the real code under a watchdog, hangs are classified from goroutine dumps.",
+    note="trusted: TLC, watchdog windows (5 s simulated, 10 s loopback QUIC, repeat required), vnet's visibility rule")
+CHECKS["C02"] = dict(
+    category="fault_enumeration", design_ref="5.1",
+    technique="TLA+ spec Transfer.tla with fault actions checked exhaustively with TLC (no false success, both sides return); fault enumeration on the real code: connection close/loss at every byte offset of every stream, payload/checksum bit flips per frame, cancellation steps, source and sink faults",
+    text="TLC explores a graceful close, an abrupt loss or a corrupted chunk at every point of every interleaving of the protocol model; on the real code a tiny transfer is repeated with the fault injected at every byte position of every stream and direction (thorough: stride 1), every payload/CRC byte flipped, each side cancelled at every 8-byte step and the source/sink damaged; the oracle is the pair of return values, the receiver's per-file confirmations and the output-tree digest.",
+    note="trusted: TLC, vnet's fault semantics (connection error texts follow quic-go), the 6 s watchdog")
+
 NOT_APPLICABLE = {}
 
 HOOK_COMMITS = ["6b59734", "6335744"]
